@@ -47,7 +47,7 @@ m = {
     "checks": checks,
     "not_applicable": na,
     "notes": ("Sidecar contracts in /verif/contracts; known findings in /verif/known_findings.json; self-mutation lists in /verif/mutations; "
-              "84 seeded breaking changes in /verif/seeded and 12 behaviour-preserving refactorings in /verif/refactorings "
+              "89 seeded breaking changes in /verif/seeded and 12 behaviour-preserving refactorings in /verif/refactorings "
               "(tools/recheck_seeds.sh replays them against the current machinery; results in seeded/RECHECK.txt)."),
 }
 (ROOT / "MANIFEST.json").write_text(json.dumps(m, indent=1) + "\n")
